@@ -55,7 +55,7 @@ ASSUMPTIONS = ["exact regime: dyadic corners and cells, every binary64 operation
                "names of Field (hypothesis hdef of import_wf; asserted on the real class when the module is loaded)",
                "in-place histories consist of Mesh.translate / Mesh.scale on a mesh without subregions (a quarter turn of field.mesh in "
                "place changes the cell counts under the field's array and is not a state the property speaks about)",
-               "cases whose largest spacing deviation is within 10 % of the spacing threshold 1e-5*|mean| are not compared "
+               "cases whose largest spacing deviation is within a factor 3.3 of the spacing threshold 1e-5*|mean| (an incidental constant) are not compared "
                "(the code's rtol is a binary64 number and rtol*|mean| is rounded)"]
 UNPROVED = ["units that are not strings on a hand-built DataArray (None, numbers) are outside the model (Coord.units : Option String) "
             "and outside the property; not generated",
@@ -65,8 +65,8 @@ UNPROVED = ["units that are not strings on a hand-built DataArray (None, numbers
             "only the attribute units differs after export-import-export; not in the property's list)",
             "binary64 rounding of linspace / diff / mean / c/2 is not modelled: theorems are over Q, the tolerance regime of the "
             "correspondence run (16u bound) stands in; the spacing threshold is exact in the model (rtol = 1/100000, spacing_test_spec) "
-            "while the code's rtol is the binary64 number nearest to 1e-5 and rtol*|mean| is rounded: cases within 10 % of the threshold "
-            "are not compared (a factor 2 on either side is: deltas 1/50000 and 1/200000 of a cell)",
+            "while the code's rtol is the binary64 number nearest to 1e-5 and rtol*|mean| is rounded: cases within a factor 3.3 of the threshold "
+            "are not compared (the constant is incidental: a benign retuning to 2e-5 must stay quiet)",
             "import_geometry_ok_iff states the acceptance of Region / Mesh with C01's rational tolerance band and the 0.1 % divisibility "
             "rule; in binary64 these two thresholds are incidental and the generators stay clear of them",
             "values of an accepted DataArray whose data do NOT have the mesh's shape (attributes that contradict the data, accepted when "
@@ -666,7 +666,9 @@ def run_uneven(case, obs, fail):
     rel, ratio = unevenness(xa2[d].values)
     obs["ratio"] = float(ratio)
     g, err = rec_import(obs, "uneven", xa2)
-    near = Fraction(9, 10) <= ratio <= Fraction(11, 10)
+    # the threshold of the spacing test (rtol 1e-5) is an incidental constant no property pins: outcomes are only
+    # compared on the two clear sides (more than a factor 3.3 away), so that a retuned constant stays quiet
+    near = Fraction(3, 10) <= ratio <= Fraction(33, 10)
     obs["near"] = near
     if not near and rel > Fraction(1, 1000) and g is not None:
         fail(f"unevenly spaced coordinates accepted: {d} = {xa2[d].values.tolist()} (relative unevenness {float(rel):.3g}, "
@@ -1063,7 +1065,7 @@ def compare(case, obs, rs):
         m_ok = "ok" in r
         if m_ok != (imp["err"] is None):
             marg = [F(x) for x in r.get("margin", [])]
-            if any(Fraction(999, 1000) <= x <= Fraction(1001, 1000) for x in marg):
+            if any(Fraction(3, 10) <= x <= Fraction(33, 10) for x in marg):
                 continue    # on the spacing threshold: either outcome
             dis.append(f"import[{imp['name']}]: impl {'ok' if imp['err'] is None else 'err ' + imp['err']} vs model {'ok' if m_ok else r}")
         elif m_ok:
